@@ -1,0 +1,25 @@
+//go:build verif
+
+// Package verifhook provides observation and scheduling points for the
+// model-based verification harness. With the "verif" build tag off every
+// function in this package is an empty, inlinable no-op.
+package verifhook
+
+// EmitFn, when set by a harness before any goroutine is started, receives one
+// event per linearization point.
+var EmitFn func(ev string, key string, a int64, b int64)
+
+// YieldFn, when set, is called at scheduling points; it may block the caller.
+var YieldFn func(point string, key string)
+
+func Emit(ev string, key string, a int64, b int64) {
+	if f := EmitFn; f != nil {
+		f(ev, key, a, b)
+	}
+}
+
+func Yield(point string, key string) {
+	if f := YieldFn; f != nil {
+		f(point, key)
+	}
+}
